@@ -21,6 +21,12 @@ func (*inArray) Exit(node *Node) {
 						// for the lookup map.
 						return
 					}
+					if hasDynamicOperand(n.Left) {
+						// Arithmetic with an operand of interface type is
+						// given the type of its other operand, but yields
+						// whatever kind the dynamic value has.
+						return
+					}
 					t := n.Left.Type()
 					if t != reflect.TypeOf(0) {
 						// This optimization can be only performed if left side is int type
@@ -92,6 +98,25 @@ func mayBeNil(node Node) bool {
 	case *UnaryNode:
 		// Unary plus compiles to nothing and lets a nil through.
 		return n.Operator == "+" && mayBeNil(n.Node)
+	}
+	return false
+}
+
+// hasDynamicOperand reports arithmetic (or concatenation) one of whose
+// operands has interface type.
+func hasDynamicOperand(node Node) bool {
+	dynamic := func(n Node) bool {
+		t := n.Type()
+		return t == nil || t.Kind() == reflect.Interface
+	}
+	switch n := node.(type) {
+	case *UnaryNode:
+		return dynamic(n.Node) || hasDynamicOperand(n.Node)
+	case *BinaryNode:
+		switch n.Operator {
+		case "+", "-", "*", "/", "%":
+			return dynamic(n.Left) || dynamic(n.Right) || hasDynamicOperand(n.Left) || hasDynamicOperand(n.Right)
+		}
 	}
 	return false
 }
